@@ -383,6 +383,10 @@ def _do_rewrite(source: str, rewrite: _Rewrite, *, fix_function_name: str = "") 
                     last_line = before.splitlines()[-1]
                     indent = len(last_line) - len(last_line.rstrip())
                     new_code += " " * indent
+                if source and old.start >= len(source):
+                    # Insertion after the last line: start a fresh line with the node's own indent
+                    new_code = textwrap.indent(new_code, " " * getattr(new, "col_offset", 0))
+                    new_code = ("" if source.endswith("\n") else "\n") + new_code
 
     else:
         raise TypeError(f"Invalid replacement type: {type(new)}")
